@@ -161,6 +161,7 @@ type World struct {
 	klocks   map[any]*klock
 	lastNow  time.Time
 	Values   map[string]any // harness/shim attachments (snet, sfs ...)
+	KnobFn   func(name string, def int) int // R8: per-run queue capacities (nil = shipped values)
 	main     *Task
 }
 
@@ -736,6 +737,25 @@ func Now() time.Time {
 	w.lastNow = t
 	w.mu.Unlock()
 	return t
+}
+
+// Knob stands in for a literal queue capacity in instrumented code (rule R8): def unless the
+// harness of the run in progress installed a KnobFn, which then decides (from the choice
+// stream, so the capacity is part of the replay file).
+func Knob(name string, def int) int {
+	w := cur.Load()
+	if w == nil || w.KnobFn == nil {
+		return def
+	}
+	v := w.KnobFn(name, def)
+	if v < 1 || v > def {
+		v = def
+	}
+	if v != def {
+		w.Fault("queue_capacity_reduced")
+		w.Event("knob %s: capacity %d instead of %d", name, v, def)
+	}
+	return v
 }
 
 // Config returns the run's configuration (harnesses derive scenario classes from it).
